@@ -17,9 +17,9 @@ variable {V : Type}
 
 /-- Bit level: the new Array's data is the selected items' bits back to back — for every start/stop/step
     (the step-1 branch takes one bit slice, the other branch appends `data[s:s+L]` for `s` in a range of bit offsets). -/
-theorem getSlice_chunks (c : Codec V) (hu : c.mult = 1) (hL : 0 < c.L) (d : Bits) (s e st : Option Int) :
+theorem getSlice_chunks (c : Codec V) (hL : 0 < c.w) (d : Bits) (s e st : Option Int) :
     getSlice c d s e st = (Py.getSlice (chunks c.w d) s e st).map List.flatten := by
-  obtain ⟨bs, t, hbs, ht, rfl, hch, htr, hlen, hit⟩ := blocks_view c hu hL d
+  obtain ⟨bs, t, hbs, ht, rfl, hch, htr, hlen, hit⟩ := blocks_view c hL d
   rw [hch, pyGetSlice_getD]
   unfold getSlice
   rw [hlen]
@@ -32,31 +32,31 @@ theorem getSlice_chunks (c : Codec V) (hu : c.mult = 1) (hL : 0 < c.L) (d : Bits
     · subst h1
       simp only [ne_eq, not_true_eq_false, if_false]
       have hr := sliceIndices_pos_range s e 1 (by omega) bs.length
-      rw [getSlice_step1_blocks c.L bs t hbs _ _ ⟨hr.1, hr.2.1⟩ ⟨hr.2.2.1, hr.2.2.2⟩]
+      rw [getSlice_step1_blocks c.w bs t hbs _ _ ⟨hr.1, hr.2.1⟩ ⟨hr.2.2.1, hr.2.2.2⟩]
       have : Py.getSlice bs s e (some 1) = Py.getSlice bs s e none := rfl
       rw [this, C01.getSlice_step1]
       rfl
     · simp only [ne_eq, h1, not_false_eq_true, if_true]
       rw [pyGetSlice_eq bs s e k h0]
-      rw [rangeList_scaled _ _ _ (c.L : Int) (by omega) h0]
-      rw [getSlice_fold c.L bs t hbs _ (fun i hi => rangeList_slice_mem s e k h0 bs.length i hi) []]
+      rw [rangeList_scaled _ _ _ (c.w : Int) (by omega) h0]
+      rw [getSlice_fold c.w bs t hbs _ (fun i hi => rangeList_slice_mem s e k h0 bs.length i hi) []]
       simp [Except.map]
 
 /-- Item level: slicing = Python list slicing, and the result has no trailing bits. -/
-theorem getSlice_refines (c : Codec V) (hu : c.mult = 1) (hL : 0 < c.L) (d : Bits) (s e st : Option Int) :
+theorem getSlice_refines (c : Codec V) (hL : 0 < c.w) (d : Bits) (s e st : Option Int) :
     (getSlice c d s e st).map (items c) = Py.getSlice (items c d) s e st ∧
     ∀ r, getSlice c d s e st = .ok r → trailing c.w r = [] := by
-  have hc := getSlice_chunks c hu hL d s e st
+  have hc := getSlice_chunks c hL d s e st
   have hw := w_eq_L c hu
   have hit : items c d = (chunks c.w d).map c.dec := rfl
-  have hcl : ∀ b ∈ chunks c.w d, b.length = c.L := by
-    rw [hw]; exact chunks_mem_length c.L hL d
+  have hcl : ∀ b ∈ chunks c.w d, b.length = c.w := by
+    rw [hw]; exact chunks_mem_length c.w hL d
   rw [hc, hit, pyGetSlice_map]
   cases hp : Py.getSlice (chunks c.w d) s e st with
   | error er => exact ⟨rfl, fun r hr => by cases hr⟩
   | ok r =>
-    have hr : ∀ b ∈ r, b.length = c.L := fun b hb => hcl b (pyGetSlice_mem _ _ _ _ _ hp b hb)
-    have hv := view_of_blocks c hu hL r [] hr hL
+    have hr : ∀ b ∈ r, b.length = c.w := fun b hb => hcl b (pyGetSlice_mem _ _ _ _ _ hp b hb)
+    have hv := view_of_blocks c hL r [] hr hL
     rw [List.append_nil] at hv
     refine ⟨?_, ?_⟩
     · simp only [Except.map, hv.1]
@@ -75,57 +75,115 @@ theorem getSlice_step_zero (c : Codec V) (d : Bits) (s e : Option Int) :
 
 /-- Slice assignment = Python list slice assignment when every value fits: step 1 splices any number of values,
     an extended slice needs exactly as many values as indices (else ValueError, nothing changed). -/
-theorem setSlice_refines (c : Codec V) (hu : c.mult = 1) (hL : 0 < c.L) (hwf : c.WF) (d : Bits)
+theorem setSlice_refines (c : Codec V) (hL : 0 < c.w) (hwf : c.WF) (d : Bits)
     (s e st : Option Int) (vals : List V) (hv : vals.all (fits c) = true) :
     (setSlice c d s e st vals).view c = (PyL.setSlice (items c d) s e st vals).map fun l => ((), l) := by
-  sorry
+  obtain ⟨bs, t, hbs, ht, rfl, hch, htr, hlen, hit⟩ := blocks_view c hL d
+  obtain ⟨bl, hf, hbl, hdec, _, hca⟩ := encs_of_fits c hwf vals hv
+  obtain ⟨h1, h2⟩ := setSlice_blocks c hL hwf bs t hbs ht s e st vals bl hf hbl hca
+  rw [h1, hit, ← hdec, pySetSlice_map]
+  cases hp : PyL.setSlice bs s e st bl with
+  | error er => simp [Step.view, Except.map]
+  | ok bs' =>
+    have hv' := view_of_blocks c hL bs' t (h2 bs' hp) ht
+    simp [Step.view, Except.map, hv'.1]
 
-theorem setSlice_trailing (c : Codec V) (hu : c.mult = 1) (hL : 0 < c.L) (hwf : c.WF) (d : Bits)
+theorem setSlice_trailing (c : Codec V) (hL : 0 < c.w) (hwf : c.WF) (d : Bits)
     (s e st : Option Int) (vals : List V) (hv : vals.all (fits c) = true) :
     trailing c.w (setSlice c d s e st vals).data = trailing c.w d := by
-  sorry
+  obtain ⟨bs, t, hbs, ht, rfl, hch, htr, hlen, hit⟩ := blocks_view c hL d
+  obtain ⟨bl, hf, hbl, hdec, _, hca⟩ := encs_of_fits c hwf vals hv
+  obtain ⟨h1, h2⟩ := setSlice_blocks c hL hwf bs t hbs ht s e st vals bl hf hbl hca
+  rw [h1, htr]
+  cases hp : PyL.setSlice bs s e st bl with
+  | error er => exact htr
+  | ok bs' => exact (view_of_blocks c hL bs' t (h2 bs' hp) ht).2.1
 
 /-- A wrong number of values for an extended slice, or step 0, changes nothing. -/
-theorem setSlice_error_unchanged (c : Codec V) (hu : c.mult = 1) (hL : 0 < c.L) (hwf : c.WF) (d : Bits)
+theorem setSlice_error_unchanged (c : Codec V) (hL : 0 < c.w) (hwf : c.WF) (d : Bits)
     (s e st : Option Int) (vals : List V) (hv : vals.all (fits c) = true) (er : Err)
     (h : (setSlice c d s e st vals).res = .error er) : (setSlice c d s e st vals).data = d := by
-  sorry
+  obtain ⟨bs, t, hbs, ht, rfl, hch, htr, hlen, hit⟩ := blocks_view c hL d
+  obtain ⟨bl, hf, hbl, hdec, _, hca⟩ := encs_of_fits c hwf vals hv
+  obtain ⟨h1, h2⟩ := setSlice_blocks c hL hwf bs t hbs ht s e st vals bl hf hbl hca
+  rw [h1] at h ⊢
+  cases hp : PyL.setSlice bs s e st bl with
+  | error er' => rfl
+  | ok bs' => rw [hp] at h; cases h
 
 /-- Step-1 assignment is atomic also when a value does not fit (all elements are built before the splice). -/
 theorem setSlice_step1_rejects (c : Codec V) (d : Bits) (s e : Option Int) (vals : List V)
     (hv : vals.all (fits c) = false) :
     (∃ er, (setSlice c d s e none vals).res = .error er) ∧ (setSlice c d s e none vals).data = d := by
-  sorry
+  obtain ⟨er, her⟩ := createAll_err c vals hv
+  have : setSlice c d s e none vals = ⟨d, .error er⟩ := by
+    unfold setSlice
+    simp [her]
+  rw [this]
+  exact ⟨⟨er, rfl⟩, rfl⟩
 
 /-! ### del a[start:stop:step] -/
 
-theorem delSlice_refines (c : Codec V) (hu : c.mult = 1) (hL : 0 < c.L) (d : Bits) (s e st : Option Int) :
+theorem delSlice_refines (c : Codec V) (hL : 0 < c.w) (d : Bits) (s e st : Option Int) :
     (delSlice c d s e st).view c = (PyL.delSlice (items c d) s e st).map fun l => ((), l) := by
-  sorry
+  obtain ⟨bs, t, hbs, ht, rfl, hch, htr, hlen, hit⟩ := blocks_view c hL d
+  rw [delSlice_blocks c hL bs t hbs ht s e st, hit, pyDelSlice_map]
+  cases hp : PyL.delSlice bs s e st with
+  | error er => simp [Step.view, Except.map]
+  | ok bs' =>
+    have hbs' : ∀ b ∈ bs', b.length = c.w := fun b hb => hbs b (pyDelSlice_mem _ _ _ _ _ hp b hb)
+    have hv' := view_of_blocks c hL bs' t hbs' ht
+    simp [Step.view, Except.map, hv'.1]
 
-theorem delSlice_trailing (c : Codec V) (hu : c.mult = 1) (hL : 0 < c.L) (d : Bits) (s e st : Option Int) :
+theorem delSlice_trailing (c : Codec V) (hL : 0 < c.w) (d : Bits) (s e st : Option Int) :
     trailing c.w (delSlice c d s e st).data = trailing c.w d := by
-  sorry
+  obtain ⟨bs, t, hbs, ht, rfl, hch, htr, hlen, hit⟩ := blocks_view c hL d
+  rw [delSlice_blocks c hL bs t hbs ht s e st, htr]
+  cases hp : PyL.delSlice bs s e st with
+  | error er => exact htr
+  | ok bs' =>
+    have hbs' : ∀ b ∈ bs', b.length = c.w := fun b hb => hbs b (pyDelSlice_mem _ _ _ _ _ hp b hb)
+    exact (view_of_blocks c hL bs' t hbs' ht).2.1
 
 theorem delSlice_error_unchanged (c : Codec V) (d : Bits) (s e st : Option Int) (er : Err)
     (h : (delSlice c d s e st).res = .error er) : (delSlice c d s e st).data = d := by
-  sorry
+  revert h
+  unfold delSlice
+  simp only
+  split
+  · intro _; rfl
+  · split
+    · intro h; cases h
+    · intro h; cases h
 
 /-- The list specification of slice deletion agrees with "delete one index after the other from the highest down". -/
 theorem delSlice_spec_all {α} (l : List α) : PyL.delSlice l none none none = .ok [] := by
-  sorry
+  have h0 : ¬ ((1 : Int) = 0) := by omega
+  have : PyL.delSlice l none none none = PyL.delSlice l none none (some 1) := rfl
+  rw [this, pyDelSlice_eq l none none 1 h0, C01.sliceIndices_none_none_pos 1 (by omega)]
+  simp only
+  have h := keep_interval l 0 l.length (by omega) (Nat.le_refl _)
+  simp only [Nat.cast_zero] at h
+  rw [h]
+  simp
 
 /-! ### reverse -/
 
 /-- The swap loop reverses the items (no trailing bits). -/
-theorem reverse_refines (c : Codec V) (hu : c.mult = 1) (hL : 0 < c.L) (d : Bits) (ht : trailing c.w d = []) :
+theorem reverse_refines (c : Codec V) (hL : 0 < c.w) (d : Bits) (ht : trailing c.w d = []) :
     (reverse c d).view c = .ok ((), (items c d).reverse) ∧ trailing c.w (reverse c d).data = [] := by
   sorry
 
 /-- With trailing bits `reverse` raises and changes nothing. -/
-theorem reverse_trailing_rejects (c : Codec V) (hu : c.mult = 1) (hL : 0 < c.L) (d : Bits) (ht : trailing c.w d ≠ []) :
+theorem reverse_trailing_rejects (c : Codec V) (hL : 0 < c.w) (d : Bits) (ht : trailing c.w d ≠ []) :
     (reverse c d).res = .error .value ∧ (reverse c d).data = d := by
-  sorry
+  have hw := w_eq_L c hu
+  have hm : d.length % c.w ≠ 0 := by
+    rw [hw] at ht
+    exact fun h0 => ht ((trailing_nil_iff c.w d).mpr h0)
+  unfold reverse
+  rw [if_pos hm]
+  exact ⟨rfl, rfl⟩
 
 /-! ### non-vacuity -/
 example : (getSlice (mkCodec .u "uint" 2 1 .int false) [false, true, true, false, true, true, false, false, true] (some (-1)) none (some (-2))).map
